@@ -27,6 +27,13 @@ CHECKS.update({
    technique="Coq proof about a hand-written model of the weighted merge + differential correspondence with C and Python",
    ref="DESIGN.md section 6 C12"),
 })
+CHECKS.update({
+ "C11": dict(
+   text="Theorems C11_radix (the byte-wise LSB-first radix sort with the signed/unsigned most-significant-byte order sorts every list of keys of the type's range), C11_quicksort (the explicit-stack median-of-3 quicksort with insertion sort below 26 sorts and its fuel suffices), C11_uniq, C11_multiunion_c (gather + sort on either side of the 800 switch + uniq = sorted duplicate-free union), C11_multiunion_py and C11_same (C and Python return the same set), for all inputs. The model is compared with C and Python multiunion on all 16 integer-key families, all operand kinds, sizes around 25/800 and beyond, keys over the whole range; the generator is required to reach both sort paths for every key type.",
+   note="Trusted: Coq kernel; Model/Sort.v tied by correspondence; little-endian two's-complement keys; the insertion sort inside quicksort is modelled functionally (slice sorted in place). Print Assumptions: closed.",
+   technique="Coq proofs (radix sort by stable-pass invariant; in-place quicksort by slice invariant) about a hand-written model of sorters.c + differential correspondence",
+   ref="DESIGN.md section 6 C11"),
+})
 NOT_YET = {}
 
 def main():
